@@ -171,8 +171,11 @@ def callKernel (c : Call) (st : St) : List String :=
   let n := st.topo.n
   let dir := c.toks.getD 1 "bfs"
   let threads := natOf (c.toks.getD 2 "1")
+  -- one node data per worker (one for the sequential application), each created once and freed once
+  let nd := if threads > 1 then threads else 1
+  let knodes := line "knodes" (toString nd ++ " " ++ toString nd)
   if threads > 1 && dir == "dfs" then ["O kernel err runtime_error"]
-  else if dir == "any" then [line "kernel" (joinF ((List.range n).map (fun i => Float.ofNat (i + 1)))), "O kvisits 1"]
+  else if dir == "any" then [line "kernel" (joinF ((List.range n).map (fun i => Float.ofNat (i + 1)))), "O kvisits 1", knodes]
   else
     -- bottom-up order: every receiver before its donors (dfs for single, reversed Kahn for multi)
     let val : Array Float := st.g.dfs.foldl (fun (v : Array Float) i =>
@@ -181,7 +184,7 @@ def callKernel (c : Call) (st : St) : List String :=
         let vr := if vr < 0.0 then 1e9 else vr
         if b < vr then vr else b) (-1.0)
       v.setIfInBounds i (best + 1.0)) (Array.replicate n (-1.0))
-    [line "kernel" (joinF val.toList), "O kvisits 1"]
+    [line "kernel" (joinF val.toList), "O kvisits 1", knodes]
 
 /-! ### worker pool: block arithmetic and API programs -/
 
